@@ -52,7 +52,7 @@ pub fn numlit(tier: &str, seed: u64, out: &mut Out) {
         let model_in = format!("{}{}\"/>", l, tail);
         let mut g = TmplGroup::new();
         let r = catch(std::panic::AssertUnwindSafe(|| {
-            g.add_tmpl("p", &src);
+            { crate::util::note_input(&*src); g.add_tmpl("p", &src) };
             let t = g.get_tree("p").unwrap();
             match t.content.get(0) {
                 Some(Node::Element(el)) => match &el.kind {
@@ -108,7 +108,7 @@ fn option_sets() -> Vec<StyleSheetOptions> {
 
 fn exercise_template(path: &str, src: &str) -> usize {
     let mut g = TmplGroup::new_dev();
-    let diags = g.add_tmpl(path, src);
+    let diags = { crate::util::note_input(&*src); g.add_tmpl(path, src) };
     let mut n = diags.len();
     n += g.get_tmpl_gen_object(path).map(|s| s.len()).unwrap_or(0);
     n += g.get_tmpl_gen_object_groups().map(|s| s.len()).unwrap_or(0);
